@@ -1,11 +1,177 @@
 (* C03, full mpsc part - may_queue::mpsc::Queue with its block chain, block retirement through old_block,
-   allocator-chosen block addresses (reuse = ABA on the packed tail word in scope), bulk_pop, peek, len and
-   Queue::drop.  Property theorems only: each is closed by `exact` of a lemma proved elsewhere and followed by
-   Print Assumptions.  Model: Queue/MpscFullModel.v (one transition per shared access, block size B, any
-   number of pushers, one consumer), st = (M memory, P pushers, C consumer, G ghost, F monitors). *)
+   allocator-chosen block addresses (a freed address may be issued again: ABA on the packed tail word is in
+   scope), bulk_pop, peek, len / is_empty and Queue::drop.  Property theorems only: each is closed by `exact`
+   of a lemma proved elsewhere and followed by Print Assumptions.
+   Model: Queue/MpscFullModel.v (one transition per shared access, block size B, any number of pushers, one
+   consumer; `true` = the old_block delay of the code), st = (M memory, P pushers, C consumer, G ghost, F monitors).
+   nlin s = pushes linearised so far (LP = the reserving CAS, for the last index of a block the ready store),
+   rlog = reservation log (pusher, value) in slot order, absq = abstract FIFO, popped = values handed out. *)
 From Coq Require Import List ZArith Arith.
 Import ListNotations.
-Require Import MayV.Queue.MpscFullModel MayV.Queue.MpscFullAccept.
+Require Import MayV.Queue.MpscFullModel MayV.Queue.MpscFullInv MayV.Queue.MpscFullPresC1 MayV.Queue.MpscFullThm
+  MayV.Queue.MpscFullCount MayV.Queue.MpscFullWitness MayV.Queue.MpscFullAccept.
+
+(* (i) Exactly once, nothing invented, across blocks: the values handed out so far followed by the abstract queue
+   are the reserved values in slot order, up to the linearisation bound; at most ONE reserved value is not yet
+   linearised, and then the closing bit is set (the push of a last index between its CAS and its ready store). *)
+Theorem C03_mpsc_full_exactly_once :
+  forall B, 1 <= B -> forall s, Reach B true s ->
+  popped (G s) ++ absq (G s) = map snd (firstn (nlin B s) (rlog (G s))) /\
+  length (popped (G s)) = hidx (M s) /\
+  nlin B s <= length (rlog (G s)) /\ length (rlog (G s)) <= S (nlin B s) /\
+  (length (rlog (G s)) = S (nlin B s) -> tc (M s) = true).
+Proof. exact exactly_once. Qed.
+Print Assumptions C03_mpsc_full_exactly_once.
+
+(* (i) every reserved slot has exactly one writer: two pushers between CAS and ready store never work on the same
+   (block, index), and the log names the pusher and its value for that slot *)
+Theorem C03_mpsc_full_reserved_slots_have_one_owner :
+  forall B, 1 <= B -> forall s p q, Reach B true s -> p <> q ->
+  (pp (P s p) = PWrite \/ pp (P s p) = PReady) -> (pp (P s q) = PWrite \/ pp (P s q) = PReady) ->
+  (gk (P s p), li (P s p)) <> (gk (P s q), li (P s q)) /\
+  nth (pslot B (P s p)) (rlog (G s)) (0, 0) = (p, pv (P s p)).
+Proof. exact reserved_slots_have_one_owner. Qed.
+Print Assumptions C03_mpsc_full_reserved_slots_have_one_owner.
+
+(* (ii) pop / bulk_pop / peek never return anything but the head(s) of the abstract FIFO, in order (monitor form) *)
+Theorem C03_mpsc_full_pops_return_fifo_heads :
+  forall B, 1 <= B -> forall s, Reach B true s -> bad_fifo (F s) = false.
+Proof. exact pops_return_fifo_heads. Qed.
+Print Assumptions C03_mpsc_full_pops_return_fifo_heads.
+
+(* (ii) ... and at the linearisation point (the head.index store) what is returned is a non-empty prefix of the
+   abstract FIFO that lies inside the head block: bulk_pop never crosses a block boundary *)
+Theorem C03_mpsc_full_commit_returns_prefix :
+  forall B, 1 <= B -> forall s, Reach B true s -> cp (C s) = CCommit ->
+  cacc (C s) = firstn (length (cacc (C s))) (absq (G s)) /\ 1 <= length (cacc (C s)) /\
+  hidx (M s) + length (cacc (C s)) <= S (ghk (G s)) * B /\ ghk (G s) * B <= hidx (M s).
+Proof. exact commit_returns_prefix. Qed.
+Print Assumptions C03_mpsc_full_commit_returns_prefix.
+
+(* (ii) "empty" answers: pop / bulk_pop (also the pops of Queue::drop) answer None / nothing only if the abstract
+   FIFO was empty at some transition of that call, also while the closing bit makes push_index() under-report;
+   peek answers None only if the abstract FIFO holds nothing but the value of the ONE push that is still inside
+   its last-index protocol (it has not returned: the history is linearizable with that push ordered later) *)
+Theorem C03_mpsc_full_empty_answers_justified :
+  forall B, 1 <= B -> forall s, Reach B true s -> bad_none (F s) = false.
+Proof. exact empty_answers_justified. Qed.
+Print Assumptions C03_mpsc_full_empty_answers_justified.
+
+(* (ii) len() (and is_empty) called by the consumer: at most the abstract length at its return, at least the
+   abstract length at its call minus that ONE pending last-index push.  PARTIAL with respect to DESIGN C03 (iii)
+   ("between the abstract lengths at call and return"): that bound is refuted below for the fixed LP assignment. *)
+Theorem C03_mpsc_full_len_bounds_partial :
+  forall B, 1 <= B -> forall s, Reach B true s -> bad_len (F s) = false.
+Proof. exact len_bounds. Qed.
+Print Assumptions C03_mpsc_full_len_bounds_partial.
+(* the refutation (block size 2): push 11 returned; push 12 took the last index, published it (its LP) and was
+   preempted before tail.store; len() then answers 1 while the abstract queue holds 2 values during the whole call.
+   Not a defect of the queue: push 12 has not returned, so its LP may be placed after the len(). *)
+Theorem C03_mpsc_full_len_between_call_and_return_refuted :
+  exists s, Reach 2 true s /\ cp (C s) = CIdle /\ cop (C s) = OLen /\ cres (C s) < glen0 (G s) /\ cres (C s) < length (absq (G s)).
+Proof. exact len_below_abstract_length. Qed.
+Print Assumptions C03_mpsc_full_len_between_call_and_return_refuted.
+(* the same window for peek: None although the abstract queue is not empty (the one value is that pending push) *)
+Theorem C03_mpsc_full_peek_none_only_if_empty_refuted :
+  exists s, Reach 2 true s /\ cp (C s) = CIdle /\ cop (C s) = OPeek /\ cret (C s) = [] /\ absq (G s) <> [].
+Proof. exact peek_none_on_nonempty. Qed.
+Print Assumptions C03_mpsc_full_peek_none_only_if_empty_refuted.
+
+(* (v) the three theorems of the linearisation core, on the full model: the abstract FIFO is the reserved values
+   in slot order from the consumer's position to the linearisation bound *)
+Theorem C03_mpsc_full_queue_is_slot_order :
+  forall B, 1 <= B -> forall s, Reach B true s ->
+  absq (G s) = map (rv s) (seq (hidx (M s)) (nlin B s - hidx (M s))) /\ hidx (M s) <= nlin B s.
+Proof. exact abstract_queue_is_slot_order. Qed.
+Print Assumptions C03_mpsc_full_queue_is_slot_order.
+
+(* (iii) memory: no transition dereferences an address that is not allocated (push: slot write, ready store,
+   block.start, block.next, next_block.next; consumer: ready loads, tail_block.start, head.next; drop: block.next) *)
+Theorem C03_mpsc_full_no_use_after_free :
+  forall B, 1 <= B -> forall s, Reach B true s -> bad_uaf (F s) = false.
+Proof. exact no_use_after_free. Qed.
+Print Assumptions C03_mpsc_full_no_use_after_free.
+(* ... no free hits an address that is not allocated (no double free, no wild free) ... *)
+Theorem C03_mpsc_full_no_double_free :
+  forall B, 1 <= B -> forall s, Reach B true s -> bad_dfree (F s) = false.
+Proof. exact no_double_free. Qed.
+Print Assumptions C03_mpsc_full_no_double_free.
+(* ... a slot write never hits a slot that is ready or already written (so the value the consumer reads with the
+   ready load that saw 1 cannot change under it) *)
+Theorem C03_mpsc_full_no_slot_overwritten :
+  forall B, 1 <= B -> forall s, Reach B true s -> bad_over (F s) = false.
+Proof. exact no_slot_overwritten. Qed.
+Print Assumptions C03_mpsc_full_no_slot_overwritten.
+
+(* (iii) the structural form: whatever block address a pusher holds AFTER its successful CAS (its block, the next
+   block it links) and whatever the consumer holds (head.block, the tail block, old_block) is allocated *)
+Theorem C03_mpsc_full_held_blocks_are_allocated :
+  forall B, 1 <= B -> forall s, Reach B true s ->
+  (forall p, inflight (P s p) = true -> issome (heap (M s) (lb (P s p))) = true) /\
+  (forall p, pp (P s p) = PLink -> issome (heap (M s) (pnx (P s p))) = true) /\
+  (pcls (cp (C s)) <= 2 -> issome (heap (M s) (hblk (M s))) = true /\ issome (heap (M s) (taddr (M s))) = true /\
+                            (oldb (M s) <> 0 -> issome (heap (M s) (oldb (M s))) = true)).
+Proof. exact held_blocks_are_allocated. Qed.
+Print Assumptions C03_mpsc_full_held_blocks_are_allocated.
+
+(* (iii) "a block is freed only when no pusher can still hold its address from a tail word it loaded" is FALSE as
+   stated: a pusher preempted between its tail load and its CAS can hold the address of a freed block ... *)
+Theorem C03_mpsc_full_no_pusher_holds_a_freed_address_refuted :
+  exists s p, Reach 2 true s /\ pp (P s p) = PCas /\ heap (M s) (lb (P s p)) = None.
+Proof. exact pusher_holds_freed_address. Qed.
+Print Assumptions C03_mpsc_full_no_pusher_holds_a_freed_address_refuted.
+(* ... and the allocator may issue that address again, so that the tail word comes back to the very value the
+   pusher holds (here: logical block 4 at the address of block 0, same index) and its stale CAS succeeds (ABA) ... *)
+Theorem C03_mpsc_full_aba_on_the_tail_word_is_reachable :
+  exists s p, Reach 2 true s /\ pp (P s p) = PCas /\ cas_ok s p = true /\ gtk (G s) = 4 /\
+              lb (P s p) = badr (G s) 0 /\ badr (G s) 0 = badr (G s) (gtk (G s)).
+Proof. exact aba_reaches_the_cas. Qed.
+Print Assumptions C03_mpsc_full_aba_on_the_tail_word_is_reachable.
+(* ... which is harmless, because everything the pusher uses afterwards is a function of the tail word its CAS
+   saw: whenever a CAS succeeds - stale or not - the pusher's copy IS the current tail word and its block address
+   is the allocated tail block (all theorems of this file are proved with that ABA in scope) *)
+Theorem C03_mpsc_full_successful_cas_names_the_tail_block :
+  forall B, 1 <= B -> forall s p, Reach B true s -> pp (P s p) = PCas -> cas_ok s p = true ->
+  lb (P s p) = badr (G s) (gtk (G s)) /\ li (P s p) = ti (M s) /\ tc (M s) = false /\ live s (gtk (G s)) /\
+  issome (heap (M s) (lb (P s p))) = true /\ bstart (blk_at s (lb (P s p))) = gtk (G s) * B.
+Proof. exact successful_cas_names_the_tail_block. Qed.
+Print Assumptions C03_mpsc_full_successful_cas_names_the_tail_block.
+
+(* (iii) the old_block delay is what makes it safe: in the variant that frees the retired block right after
+   head.block.store, the pusher of the last slot reads block.start of a freed block (block size 2, 20 steps) *)
+Theorem C03_mpsc_full_without_the_old_block_delay_refuted :
+  exists s, Reach 2 false s /\ bad_uaf (F s) = true.
+Proof. exact without_delay_use_after_free. Qed.
+Print Assumptions C03_mpsc_full_without_the_old_block_delay_refuted.
+
+(* (iii) wait_next_block never has to wait: the block after the tail block is installed before the tail moves *)
+Theorem C03_mpsc_full_wait_next_block_never_waits :
+  forall B, 1 <= B -> forall s, Reach B true s ->
+  (forall p, pp (P s p) = PNext -> bnext (blk_at s (lb (P s p))) <> 0) /\
+  (cp (C s) = CNext -> bnext (blk_at s (hblk (M s))) <> 0).
+Proof. exact wait_next_block_never_waits. Qed.
+Print Assumptions C03_mpsc_full_wait_next_block_never_waits.
+
+(* (iv) Queue::drop: when it is done every address is free (all blocks freed), the abstract queue is empty and the
+   values handed out (pops before + the pops of drop) are exactly the reserved values in slot order; nobody is
+   inside a push (the premise &mut self of drop); no free hit a dead address and the two assertions held ... *)
+Theorem C03_mpsc_full_after_drop_everything_is_handed_out_and_freed :
+  forall B, 1 <= B -> forall s, Reach B true s -> cp (C s) = CDead ->
+  (forall a, heap (M s) a = None) /\ absq (G s) = [] /\ popped (G s) = map snd (rlog (G s)) /\
+  (forall p, pp (P s p) = PIdle) /\ bad_dfree (F s) = false /\ bad_assert (F s) = false.
+Proof. exact after_drop_everything_is_handed_out_and_freed. Qed.
+Print Assumptions C03_mpsc_full_after_drop_everything_is_handed_out_and_freed.
+(* ... and every allocation has been matched by exactly one successful free *)
+Theorem C03_mpsc_full_after_drop_allocs_equal_frees :
+  forall B, 1 <= B -> forall s, Reach B true s -> cp (C s) = CDead -> nalloc (G s) = nfree (G s).
+Proof. exact after_drop_allocs_equal_frees. Qed.
+Print Assumptions C03_mpsc_full_after_drop_allocs_equal_frees.
+
+(* all monitors together (use-after-free, double free, overwrite, FIFO, empty, len, drop assertions) *)
+Theorem C03_mpsc_full_monitors_never_trip :
+  forall B, 1 <= B -> forall s, Reach B true s -> monitors_ok s = true.
+Proof. exact monitors_never_trip. Qed.
+Print Assumptions C03_mpsc_full_monitors_never_trip.
 
 (* Tie: every state along a trace of the real queue that the acceptor accepts is reachable, hence
    satisfies all theorems of this file. *)
@@ -13,3 +179,54 @@ Theorem C03_mpsc_full_accepted_traces_are_model_runs :
   forall B tr sx sx', Reach B true (fst sx) -> accept_all B sx tr = Some sx' -> Reach B true (fst sx').
 Proof. exact accept_all_reach. Qed.
 Print Assumptions C03_mpsc_full_accepted_traces_are_model_runs.
+
+(* ---- non-vacuity ---- *)
+(* block size 2: pushes over four blocks by three pushers, pop, bulk_pop, peek, len, a block address issued again,
+   Queue::drop with one value left: 5 blocks allocated, 5 freed, every value handed out once *)
+Example C03_mpsc_full_nonvacuous_whole_life :
+  match run 2 true (init 2) sched_life with
+  | Some s => cp (C s) = CDead /\ popped (G s) = [11; 12; 13; 14; 15; 16; 17] /\ absq (G s) = [] /\
+              (nalloc (G s), nfree (G s)) = (5, 5) /\ monitors_ok s = true
+  | None => False
+  end.
+Proof. vm_compute. repeat split. Qed.
+(* the ABA run to its end: the stale CAS succeeds, 99 goes into slot 0 of logical block 4 and comes out last *)
+Example C03_mpsc_full_nonvacuous_aba_run :
+  match run 2 true (init 2) (aba_1 ++ aba_2 ++ aba_3) with
+  | Some s => popped (G s) = [11; 12; 13; 14; 15; 16; 17; 18; 99] /\ absq (G s) = [] /\ monitors_ok s = true /\
+              nth 8 (rlog (G s)) (0, 0) = (9, 99) /\ gk (P s 9) = 4
+  | None => False
+  end.
+Proof. vm_compute. repeat split. Qed.
+(* the premises of the commit and the drop theorems are reachable *)
+Example C03_mpsc_full_nonvacuous_commit :
+  match run 2 true (init 2) (pushO 0 11 ++ pushC 0 12 3 ++ [Bulk; CStep; CStep]) with
+  | Some s => cp (C s) = CCommit /\ cacc (C s) = [11; 12] /\ absq (G s) = [11; 12]
+  | None => False
+  end.
+Proof. vm_compute. repeat split. Qed.
+(* the monitors are not constant: with the same schedule the variant without the delay trips bad_uaf, the code's
+   variant does not *)
+Example C03_mpsc_full_monitor_can_trip :
+  match run 2 false (init 2) sched_nodelay, run 2 true (init 2) sched_nodelay with
+  | Some s, Some s' => bad_uaf (F s) = true /\ bad_uaf (F s') = false
+  | _, _ => False
+  end.
+Proof. vm_compute. split; reflexivity. Qed.
+(* a hand-written trace in the real event format is accepted (block size 2): Queue::new (two blocks, link), push 7,
+   push 8 (last slot: allocate, wait_next_block, link, tail store), pop -> 7, pop -> 8 (block end: nothing to free yet,
+   wait_next_block, head.block store), pop -> None, drop *)
+Local Open Scope Z_scope.
+Example C03_mpsc_full_nonvacuous_accepted_trace :
+  match accept_all 2 (a_init 2)
+    [[17;1;0;4096]; [17;1;0;8192]; [43;1;1;8192];
+     [1;1;0;7]; [21;1;2;4096]; [22;1;2;1]; [23;1;3;0]; [24;1;4;1]; [2;1;0;0];
+     [1;1;0;8]; [21;1;2;4097]; [22;1;2;1]; [23;1;5;1]; [24;1;6;1]; [17;1;0;12288]; [25;1;1;8192]; [27;1;7;12288]; [28;1;2;8192]; [2;1;0;0];
+     [3;2;0;0]; [29;2;4;1]; [33;2;8;1]; [4;2;1;7];
+     [3;2;0;0]; [29;2;6;1]; [33;2;8;2]; [25;2;1;8192]; [36;2;9;8192]; [4;2;1;8];
+     [3;2;0;0]; [29;2;10;0]; [30;2;2;8192]; [4;2;0;0];
+     [14;2;0;0]; [29;2;10;0]; [30;2;2;8192]; [40;2;9;8192]; [41;2;2;8192]; [42;2;7;12288]; [18;2;0;12288]; [18;2;0;8192]; [18;2;0;4096]; [15;2;0;0]] with
+  | Some sx => popped (G (fst sx)) = [7%nat; 8%nat] /\ cp (C (fst sx)) = CDead /\ a_final sx = true
+  | None => False
+  end.
+Proof. vm_compute. repeat split. Qed.
